@@ -102,9 +102,14 @@ class CapturedPath:
   def _push_first_edge_on_se_path(self, path, items):
     oriented_edge = items[0]
     oss = [oriented_edge.line.sid1, oriented_edge.line.sid2]
+    if oriented_edge.line.is_dovetail() and \
+        not oriented_edge.line._is_sid1_from():
+      # a dovetail is walked from the segment whose end overlaps
+      # to the segment whose beginning overlaps
+      oss.reverse()
     if oriented_edge.orient == "-":
-      for i in range(len(oss)):
-        oss[i] = oss[i].inverted()
+      # the reversed edge is walked the other way round
+      oss = [oss[1].inverted(), oss[0].inverted()]
     if len(items) > 1:
       nextitem = items[1]
       if isinstance(nextitem.line, gfapy.line.segment.GFA2):
